@@ -24,6 +24,10 @@ func c17Text(v *V, n int, classes int) string {
 			s += "\xc3" + b
 		case 3:
 			s += "\n"
+		case 4:
+			s += "\xc2\xa0" // no-break space: white space wider than one byte
+		case 5:
+			s += "\xe3\x80\x80" // ideographic space
 		}
 	}
 	return s
@@ -38,7 +42,7 @@ func H_C17_wrap(v *V) {
 	for i := 0; i < fill; i++ {
 		d += "w"
 	}
-	d += c17Text(v, v.Shape("n"), 4)
+	d += c17Text(v, v.Shape("n"), v.Shape("classes"))
 	o := wrapText(d, width, prefix)
 	v.ObserveStr("o", o)
 	v.Reach("wrapped")
@@ -95,6 +99,29 @@ func H_C17_nested(v *V) {
 	if cw >= 0 {
 		v.Assert(cv == cw, "all option descriptions start in one common column")
 	}
+}
+
+type c17Sub struct{}
+
+// H_C17_commands: the command list of the help text with names of any script.
+func H_C17_commands(v *V) {
+	p := NewNamedParser("prog", None)
+	name := c17Name(v, v.Shape("n"))
+	c1, err := p.AddCommand(name, "DESCONE", "", &c17Sub{})
+	if err != nil {
+		v.Assume(false)
+	}
+	c1.Aliases = []string{"al"}
+	p.AddCommand("list", "DESCTWO", "", &c17Sub{})
+	v.TermWidth(v.Shape("width"))
+	var buf bytes.Buffer
+	p.WriteHelp(&buf)
+	out := buf.String()
+	v.Reach("rendered")
+	v.ObserveStr("help", out)
+	c1c, c2c := c17Column(out, "DESCONE"), c17Column(out, "DESCTWO")
+	v.Assert(c1c >= 0 && c2c >= 0, "every command description is printed")
+	v.Assert(c1c == c2c, "command descriptions start in one common column")
 }
 
 type c17L struct {
@@ -198,4 +225,5 @@ func init() {
 	vHarnesses["H_C17_wrapraw"] = H_C17_wrapraw
 	vHarnesses["H_C17_layout"] = H_C17_layout
 	vHarnesses["H_C17_nested"] = H_C17_nested
+	vHarnesses["H_C17_commands"] = H_C17_commands
 }
